@@ -382,6 +382,7 @@ def run(ctx):
         flush()
         # refusals that must come early ----------------------------------------------------------------------
         late_refusals(ctx, pool)
+        stale_redo(ctx)
         # stale plans ---------------------------------------------------------------------------------
         for sc in [s for s in scs if s["cmd"] == "apply"]:
             plan, pre0 = F.plan_of(sc)
@@ -400,6 +401,72 @@ def run(ctx):
                 tree = perturbed_tree(pre0["tree"], p)
                 exp_tree, prob = oracle.expected_tree(tree, plan, "/")
                 judge(ctx, sc, plan, exp_tree if prob is None else None, None, None, obs, m, perturb=p)
+
+
+# ------------------------------------------------------------------------------------------------
+# redo of an operation whose stored plan no longer fits the files (no fault injected)
+
+STALE_REDO_TREES = {
+    "two-matches-later-shifted": {"a.txt": "foo_bar top\n", "m.txt": "foo_bar one foo_bar\nend foo_bar\n", "z.txt": "zz\n"},
+    "dir-and-two-files": {"a.txt": "use foo_bar\n", "lib/foo_bar.rs": "fn foo_bar() {}\n// foo_bar again\n", "lib/util.rs": "foo_bar x foo_bar\n"},
+}
+# (file, what is done to it between undo and redo)
+STALE_EDITS = [("insert-between", lambda b: b.replace(b" one ", b" one more ", 1) if b" one " in b else b.replace(b" x ", b" xx ", 1)),
+               ("later-occurrence-changed", lambda b: b[:b.rindex(b"foo_bar")] + b"foo_baz" + b[b.rindex(b"foo_bar") + 7:]),
+               ("truncated-after-first", lambda b: b[:b.index(b"foo_bar") + 7] + b"\n"),
+               ("first-occurrence-changed", lambda b: b.replace(b"foo_bar", b"foo_baz", 1)),
+               ("deleted", None)]
+
+
+def stale_redo_case(tname, fname, ename):
+    """rename -y; undo latest; edit one planned file; redo latest.  -> dict(rc, changed: files that differ from the tree just
+    before the redo, stderr)"""
+    tree = {k: ("f", v.encode(), 0o644) for k, v in STALE_REDO_TREES[tname].items()}
+    edit = dict(STALE_EDITS)[ename]
+    with common.scratch() as d:
+        common.materialize(d, tree)
+        cmds = [["rename", "foo_bar", "baz_qux", "-y", "--no-auto-init", "--quiet"], ["undo", "latest"]]
+        for c in cmds:
+            rc, so, se = common.cli(c, d)
+            if rc != 0:
+                return {"setup_error": {"cmd": c, "rc": rc, "stderr": se.decode("utf-8", "replace")[-300:]}}
+        p = os.path.join(d, fname)
+        if edit is None:
+            os.unlink(p)
+        else:
+            data = open(p, "rb").read()
+            open(p, "wb").write(edit(data))
+        before = common.snapshot(d)
+        rc, so, se = common.cli(["redo", "latest"], d)
+        after = common.snapshot(d)
+        changed = sorted(k for k in set(before) | set(after) if before.get(k) != after.get(k))
+        return {"rc": rc, "changed": changed, "stderr": se.decode("utf-8", "replace")[-300:],
+                "commands": [" ".join(c) for c in cmds] + [f"<{ename}: {fname}>", "redo latest"]}
+
+
+def stale_redo(ctx):
+    """a redo that cannot be carried out completely must be refused before anything is touched (this is not the listed
+    finding content_not_rolled_back: that one is about `apply` meeting a stale file, which has no pre-validation; `redo`
+    validates the whole stored plan first)"""
+    for tname, files in sorted(STALE_REDO_TREES.items()):
+        for fname in sorted(files):
+            if "foo_bar" not in files[fname] or files[fname].count("foo_bar") < 2:
+                continue
+            for ename, _ in STALE_EDITS:
+                obs = stale_redo_case(tname, fname, ename)
+                ctx.case(("stale-redo", tname, fname, ename))
+                if "setup_error" in obs:
+                    ctx.broke("machinery", "stale redo setup", obs["setup_error"])
+                    return
+                ctx.count("stale-redo:" + ("refused-clean" if obs["rc"] != 0 and not obs["changed"] else
+                                           "ok" if obs["rc"] == 0 else "FAILED-AFTER-CHANGE"))
+                if obs["rc"] != 0 and obs["changed"]:
+                    ctx.violation("history", {"stale_redo": {"tree": tname, "file": fname, "edit": ename}, "files": files,
+                                              "sequence": obs["commands"]},
+                                  expected="redo fails => no file differs from the tree just before the redo",
+                                  observed={"rc": obs["rc"], "files_changed_by_the_failed_redo": obs["changed"], "stderr": obs["stderr"]},
+                                  note="a failed redo left files rewritten (no fault injected; the stored plan no longer fits one file)")
+                    return
 
 
 def late_refusals(ctx, pool):
@@ -506,6 +573,13 @@ def replay(ctx, path):
         return
     if isinstance(case, list):          # an `obligation` replay file: nothing to re-run but the whole check
         print(json.dumps(obj, indent=1)[:3000])
+        return
+    if "stale_redo" in case:
+        q = case["stale_redo"]
+        obs = stale_redo_case(q["tree"], q["file"], q["edit"])
+        print(json.dumps(obs, indent=1))
+        if obs.get("rc") != 0 and obs.get("changed"):
+            ctx.violation("history", case, expected=obj.get("expected"), observed=obs)
         return
     if "late" in case:
         lt = case["late"]
